@@ -19,7 +19,11 @@ Proof. exact eq_implies_hash. Qed.
 Print Assumptions C17_eq_implies_hash.
 
 (* pointer, array, struct, union and function cdata compare under all six operators exactly as
-   their addresses, whatever their Python types (owning, gc'd, from_buffer, plain) *)
+   their addresses, whatever their Python types (owning, gc'd, from_buffer, plain).
+   The pointer branch of the model is the block `if (v_is_ptr && w_is_ptr) {...}` AS IT IS IN THE
+   SOURCE NOW (C17/Gen.v, regenerated on every run: which operands each `case Py_XX` compares, with
+   which relation, as char* i.e. unsigned, or after a signed cast / as a signed difference); this
+   theorem is re-proved on it, so an edit that changes the comparison of some operator breaks it. *)
 Theorem C17_ptr_compare :
   forall pyval py_cmp ia ib ta tb a b op,
   richcompare pyval py_cmp (Build_obj ia (VPtr ta a)) (Build_obj ib (VPtr tb b)) op = RBool (zcmp op a b).
